@@ -501,6 +501,8 @@ def c_yaction(a):
         return f"YSub {C.cnat(a[1])} {C.cnat(a[2])}"
     if k == "unsub":
         return f"YUnsub {C.cnat(a[1])} {C.cnat(a[2])}"
+    if k == "schedpre":
+        return f"YSchedPre {C.cnat(a[1])}"
     return f"YA ({S.c_action(a)})"
 
 
@@ -519,7 +521,19 @@ def c_ymodel(m, ndraws):
     for nm, seed in m.get("streams", []):
         tabs[STREAM_IX[nm]] = raw_outputs(seed, ndraws.get(nm, 0) + 2)
     streams = C.clist(C.clist(C.cz(k) for k in t) for t in tabs)
-    return f"(mkYModel {prog} {lst} {subs} {stats} {streams})"
+    pre = C.clist(f"({C.cz(pe[0])}, {C.cz(pe[1])}, {C.cnat(pe[2])})" for pe in m.get("pre", []))
+    return f"(mkYModel {prog} {lst} {subs} {stats} {streams} {pre})"
+
+
+def pre_ids(case):
+    """ids of the pre-built SimEvent objects of model 0 as the model sees them: below the id counter (negative), in
+    the order of construction - the "early" ones (built before anything else in the process), then the others"""
+    pre = case["models"][0].get("pre", [])
+    early_ok = case.get("_early_built", False)
+    order = ([j for j, pe in enumerate(pre) if early_ok and len(pe) > 3 and pe[3] == "early"]
+             + [j for j, pe in enumerate(pre) if not (early_ok and len(pe) > 3 and pe[3] == "early")])
+    rank = {j: r for r, j in enumerate(order)}
+    return [rank[j] - len(pre) for j in range(len(pre))]
 
 
 def conv_val(v):
@@ -609,7 +623,8 @@ def c_ycase(case, obs, mnames):
         for x in obs["reported"]:
             k, kind, sid = sid_of[x["key"]]
             rep.append(f"({C.cnat(k)}, {SK[x['kind'] or kind]}, {c_yfed(sid, x['fed'])})")
-    return f"(mkYCase {S.STRAT[case['strategy']]} {C.clist(hist)} {c_yexpect(obs)} {dl} {C.clist(drw)} {C.clist(rep)})"
+    pre = C.clist(C.cz(i) for i in pre_ids(case))
+    return f"(mkYCase {S.STRAT[case['strategy']]} {C.clist(hist)} {c_yexpect(obs)} {dl} {C.clist(drw)} {C.clist(rep)} {pre})"
 
 
 YPRELUDE = ["From Coq Require Import ZArith List.",
@@ -626,8 +641,8 @@ def y_repr(case, obs):
         return why
     if case.get("stop_at"):
         return "stop_at"
-    if any(m.get("pre") for m in case["models"]):
-        return "pre-built events"
+    if any(m.get("pre") for m in case["models"][1:]):
+        return "pre-built events of a second model"
     if not isinstance(obs.get("reported"), (list, type(None))):
         return "reported"
     for m in case["models"]:
